@@ -255,6 +255,16 @@ def cachedNodeDump (label : String) : M (Option NodeDump) := do
       pure (some nd)
     | none => pure none
 
+/-- can the hash at `p` be computed from the stored nodes below it (both children stored or,
+recursively, computable)?  Row-0 positions never are. -/
+def computableAt (stored : Pos → Bool) : Nat → Nat → Bool
+  | 0, _ => false
+  | r + 1, o =>
+    (stored (r, 2 * o) || computableAt stored r (2 * o)) &&
+    (stored (r, 2 * o + 1) || computableAt stored r (2 * o + 1))
+
+def computableFrom (stored : Pos → Bool) (p : Pos) : Bool := computableAt stored p.1 p.2
+
 def handleMapMissing (line : String) (toks : List String) : M Unit := do
   match toks with
   | tag :: label :: ts :: lh :: res =>
@@ -281,6 +291,14 @@ def handleMapMissing (line : String) (toks : List String) : M Unit := do
                 count "dist:mapmissing:shape" (s!"{ts.length} {ms.length} {(I.proofPositions tpos).length}") true
                 if msN != exp then oracleFail "mapmissing" s!"missing positions {nats msN}, canonical proof positions not stored: {nats exp}"
                 else
+                  -- Known finding C14.mapmissing.computable: "not stored" is more than the property's
+                  -- "cannot be taken or computed from what is already held" — a reported position whose
+                  -- hash is computable from stored nodes (both children stored or computable) is an
+                  -- over-report.  Attributed to that class only; any other deviation is a violation.
+                  let over := ((I.proofPositions tpos).filter (fun p => !stored p)).filter (computableFrom stored)
+                  if !over.isEmpty then
+                    knownFinding "C14.mapmissing.computable"
+                      s!"GetMissingPositions({u64s ts}) reports {nats (over.map (enc I.rows))}, computable from stored nodes ({nd.n.toNat} leaves)"
                   let truth := msN.map (fun p => (I.nodeAtEnc p).getD H256.zero)
                   if truth != fetched then mismatch "mapmissing:fetch" (hxs truth) (hxs fetched)
                   if v != "v=ok" then oracleFail "mapmissing" s!"VerifyPartialProof with the true hashes at the missing positions: {v}"
